@@ -164,6 +164,11 @@ class Limit:
             return
 
         sb_idx = self._idx_to_sb_idx(index)
+        if sb_idx >= len(self._scoreboard):
+            # The counters were sized from the project interval at parse time, but the
+            # scheduler extends the project end when the work does not fit: keep counting
+            # (and limiting) in the added periods instead of treating them as unlimited
+            self._scoreboard.extend([0] * (sb_idx + 1 - len(self._scoreboard)))
         if 0 <= sb_idx < len(self._scoreboard):
             self._dirty = True
             self._scoreboard[sb_idx] += 1
@@ -218,10 +223,11 @@ class Limit:
             return True
         else:
             sb_idx = self._idx_to_sb_idx(index)
-            if sb_idx < 0 or sb_idx >= len(self._scoreboard):
-                return True  # Outside interval, OK
+            if sb_idx < 0:
+                return True  # Before the interval, OK
 
-            count = self._scoreboard[sb_idx]
+            # Periods beyond the sized interval (extended project end) start at zero
+            count = self._scoreboard[sb_idx] if sb_idx < len(self._scoreboard) else 0
             if self.upper:
                 return count < self.value
             else:
